@@ -6,6 +6,7 @@ import copy
 LEMMAS = ['cat', 'dog', 'Dog', 'run', 'résumé', 'resume', 'Resume', 'hot dog', 'straße', 'strasse', '情報', 'λόγος',
           'x<y', 'a&b', 'say "hi"', "it's", 'tab\there', '𝒳', 'cats', 'ran', 'running', 'bank']
 FORMS = ['cats', 'dogs', 'ran', 'running', 'résumés', 'Cats', 'hot dogs', '猫', 'x<ys', 'banks', 'cat']
+LONG_TEXT = ' '.join('word%d' % (i % 97) for i in range(1900))      # > 8 KiB: longer than expat's text buffer
 TEXTS = ['a small animal', 'to move fast', 'x < y & z', 'say "hi" and \'bye\'', 'ünï cödé 𝒳', 'a', 'two words',
          'with ]]> inside', 'a small animal', 'see <Lexicon id="z" version="9"> there']
 POS = ['n', 'v', 'a', 's', 'r']
@@ -25,6 +26,10 @@ def meta(rng, p=0.3):
                         rng.randint(1, 3)):
         m[k] = rng.choice(['0.9', '1', '0.50', '.9', '1e-1', '1.0', '0.25 ']) if k == 'confidenceScore' else rng.choice(ATTRTEXT)
     return m
+
+
+def text(rng):
+    return LONG_TEXT if rng.random() < 0.012 else rng.choice(TEXTS)
 
 
 def maybe(rng, d, key, val, p=0.5):
@@ -59,17 +64,17 @@ def gen_lexicon(rng, lid, version, lang, ilis, lmfv, size=4, requires=None):
             ili = ''
         ss = {'id': sid, 'ili': ili, 'partOfSpeech': rng.choice(POS), 'meta': meta(rng)}
         if ili == 'in' and rng.random() < 0.8:
-            ss['ili_definition'] = {'text': rng.choice(TEXTS), 'meta': meta(rng)}
+            ss['ili_definition'] = {'text': text(rng), 'meta': meta(rng)}
         defs = []
         for _ in range(rng.choice([0, 1, 1, 2])):
-            d = {'text': rng.choice(TEXTS), 'meta': meta(rng)}
+            d = {'text': text(rng), 'meta': meta(rng)}
             maybe(rng, d, 'language', rng.choice(['en', 'fr']), 0.3)
             defs.append(d)
         if defs:
             ss['definitions'] = defs
         exs = []
         for _ in range(rng.choice([0, 0, 1, 2])):
-            x = {'text': rng.choice(TEXTS), 'meta': meta(rng)}
+            x = {'text': text(rng), 'meta': meta(rng)}
             maybe(rng, x, 'language', 'en', 0.3)
             exs.append(x)
         if exs:
@@ -114,7 +119,7 @@ def gen_lexicon(rng, lid, version, lang, ilis, lmfv, size=4, requires=None):
             maybe(rng, s, 'adjposition', rng.choice(['a', 'p', 'ip']), 0.2)
             exs = []
             for _ in range(rng.choice([0, 0, 1, 2])):
-                x = {'text': rng.choice(TEXTS), 'meta': meta(rng)}
+                x = {'text': text(rng), 'meta': meta(rng)}
                 maybe(rng, x, 'language', 'en', 0.3)
                 exs.append(x)
             if exs:
@@ -205,7 +210,7 @@ def gen_extension(rng, base, xid, version, lmfv='1.1', new_forms=False):
     for sid in new_ss:
         ss = {'id': sid, 'ili': rng.choice(['', 'in', '']), 'partOfSpeech': rng.choice(POS), 'meta': meta(rng)}
         if rng.random() < 0.6:
-            ss['definitions'] = [{'text': rng.choice(TEXTS), 'meta': meta(rng)}]
+            ss['definitions'] = [{'text': text(rng), 'meta': meta(rng)}]
         rels = [{'target': rng.choice(base_ss + new_ss), 'relType': rng.choice(SYNRELS), 'meta': dctype(rng)}
                 for _ in range(rng.choice([0, 1, 2]))]
         if rels:
@@ -251,7 +256,7 @@ def gen_extension(rng, base, xid, version, lmfv='1.1', new_forms=False):
             if rels:
                 xs['relations'] = rels
             if rng.random() < 0.4:
-                xs['examples'] = [{'text': rng.choice(TEXTS), 'meta': meta(rng)}]
+                xs['examples'] = [{'text': text(rng), 'meta': meta(rng)}]
             if rng.random() < 0.4:
                 xs['counts'] = [{'value': rng.randint(1, 9), 'meta': meta(rng)}]
             if len(xs) > 2:
@@ -287,7 +292,7 @@ def gen_extension(rng, base, xid, version, lmfv='1.1', new_forms=False):
                 s['subcat'] = sorted(set(rng.choice(frames)['id'] for _ in range(rng.choice([1, 2]))))
     for s in new_senses:
         if rng.random() < 0.3:
-            s['examples'] = [{'text': rng.choice(TEXTS), 'meta': meta(rng)}]
+            s['examples'] = [{'text': text(rng), 'meta': meta(rng)}]
         if rng.random() < 0.3:
             s['counts'] = [{'value': rng.randint(1, 9), 'meta': meta(rng)}]
         if rng.random() < 0.2:
@@ -302,9 +307,9 @@ def gen_extension(rng, base, xid, version, lmfv='1.1', new_forms=False):
             xs['relations'] = [{'target': rng.choice(base_ss + new_ss), 'relType': rng.choice(SYNRELS),
                                 'meta': dctype(rng)}]
         if rng.random() < 0.25:
-            xs['examples'] = [{'text': rng.choice(TEXTS), 'meta': meta(rng)}]
+            xs['examples'] = [{'text': text(rng), 'meta': meta(rng)}]
         if rng.random() < 0.2:
-            xs['definitions'] = [{'text': rng.choice(TEXTS), 'meta': meta(rng)}]
+            xs['definitions'] = [{'text': text(rng), 'meta': meta(rng)}]
         if len(xs) > 2 or sid in referenced:
             ext['synsets'].append(xs)
     # every base synset referenced anywhere must be declared as an ExternalSynset
@@ -349,8 +354,13 @@ def gen_universe(rng, size=4, with_ext=True, ext_forms=False, force=None):
     if rng.random() < 0.7 or 'dep' in force:
         v = rng.choice(['1.1', '1.3'])
         req = [{'id': 'ba', 'version': '1'}] if (rng.random() < 0.6 or 'dep' in force) else None
-        if req and rng.random() < 0.3:
-            req.append({'id': 'missing', 'version': '9', 'url': 'http://nowhere'})
+        if req and rng.random() < 0.4:
+            req[0]['url'] = 'https://ex.org/ba'
+        if req and rng.random() < 0.4:
+            m_ = {'id': 'missing', 'version': '9'}
+            if rng.random() < 0.5:
+                m_['url'] = 'http://nowhere'
+            req.insert(rng.choice([0, 1]), m_)
         b2 = gen_lexicon(rng, 'bb', '1', rng.choice(['en', 'fr']), ilis, v, size, requires=req)
         out.append(('bb:1', {'lmf_version': v, 'lexicons': [b2]}))
     if rng.random() < 0.4 or 'v2' in force:
@@ -368,6 +378,10 @@ def gen_universe(rng, size=4, with_ext=True, ext_forms=False, force=None):
                                'xx', '1') if any(not s.get('external') for s in merged['synsets']) else None
             if x2 is not None:
                 out.append(('xx:1', {'lmf_version': '1.1', 'lexicons': [x2]}))
+    if with_ext and any(n == 'ba:2' for n, _ in out) and (rng.random() < 0.35 or 'ext2' in force):
+        # an extension of the SECOND version of ba (both versions share every identifier)
+        b2 = [r for n, r in out if n == 'ba:2'][0]['lexicons'][0]
+        out.append(('xb:1', {'lmf_version': '1.1', 'lexicons': [gen_extension(rng, b2, 'xb', '1', new_forms=ext_forms)]}))
     if rng.random() < 0.4:
         v = lmfv()
         out.append(('cc:1', {'lmf_version': v, 'lexicons': [gen_lexicon(rng, 'cc', '1', 'de', ilis[:2], v, 2)]}))
